@@ -98,4 +98,30 @@ def fastaScan (b : Array UInt8) : Nat → Nat → Nat → Nat → Int
 
 def endOfLastFastaEntry (b : Bytes) : Int := fastaScan b.toArray (b.length + 1) b.length 0 0
 
+/-- outcome of `ReadSequencesFromFile` as far as the input stream is concerned -/
+inductive FileOutcome
+  | empty                          -- `Ropen` answers ErrNoContent: read as an empty file (accepted)
+  | fail                           -- an error is returned / `log.Fatalf` before any record is read
+  | read (r : List Bytes × Outcome) -- the format reader was started on the stream
+  deriving DecidableEq, Repr
+
+/-- `ReadSequencesFromFile` (universal_read.go) over the decompressed stream `s`:
+`Ropen`/`Buf` (xopen.go) reads the first rune — a clean EOF there is ErrNoContent (the file is taken as
+empty), any other error is returned and fatal; then `OBIMimeTypeGuesser` peeks `peek` bytes; then the format
+reader runs `ReadSeqFileChunk` on `io.MultiReader(peeked bytes, stream)` when the peek was full and on the
+peeked bytes alone (`bytes.NewReader(buf[:n])`, which ends with a clean EOF) when the stream ended in the peek -/
+def readFile (split : Bytes → Int) (peek bufsz : Nat) (s : Stream) : FileOutcome :=
+  if s.data.length = 0 then (if s.final = .eof then .empty else .fail)
+  else match guessPeek peek s with
+    | .fatal => .fail
+    | .ok =>
+      let s' : Stream := if peek ≤ s.data.length then s else ⟨s.data, .eof⟩
+      .read (readChunks split bufsz s')
+
+/-- the run ends normally: exit status 0 -/
+def FileOutcome.accepted : FileOutcome → Bool
+  | .empty => true
+  | .fail => false
+  | .read r => r.2 == .ok
+
 end ObiVerif.ReadErr
